@@ -56,18 +56,6 @@ Qed.
 Print Assumptions C10_time.
 
 (** the side condition of C10_time holds for every horizon up to 5000 periods *)
-Definition half_exactb (T : nat) : bool :=
-  forallb (fun i => Leibniz.eqb ((float_of_nat i + float_of_nat i) / 2)%float (float_of_nat i)) (seq 0 (S T)).
-
-Lemma half_exactb_sound T : half_exactb T = true -> half_exact T.
-Proof.
-  unfold half_exactb, half_exact. rewrite forallb_forall. intros H i Hi.
-  apply Leibniz.eqb_spec. apply H. apply in_seq. lia.
-Qed.
-
-Lemma half_exact_mono T T' : T' <= T -> half_exact T -> half_exact T'.
-Proof. intros Hle H i Hi. apply H. lia. Qed.
-
 Theorem C10_time_half_exact_5000 : forall T, T <= 5000 -> half_exact T.
 Proof. intros T HT. apply (half_exact_mono 5000); [exact HT|]. apply half_exactb_sound. vm_compute. reflexivity. Qed.
 Print Assumptions C10_time_half_exact_5000.
